@@ -3,7 +3,7 @@ import struct
 from common import *
 
 PID = "C17"
-TARGETS = ["Run.vo", "Numeric_proofs.vo"]
+TARGETS = ["Run.vo", "Numeric_proofs.vo", "NonVacuous/C17.vo"]
 IMPORTS = "From Coq Require Import Floats.SpecFloat.\nFrom VF Require Import Base Show Gen_Errors Lexer Conv Numeric Run."
 ALLOWED_AXIOMS = []
 PROFILES = ["debug"]
